@@ -1347,14 +1347,14 @@ def _tip_schemes(T):
     return out
 
 
-def _model_world(kind):
+def _model_world(kind, dtype=torch.float64):
     """make(indices) for specs.histories.explore: REAL BDSKModel (2 epochs, rho at the present, removal probability) / BirthDeathModel over a
     real TimeTreeModel with serial tips"""
     import torchtree.evolution.bdsk as bd
     import torchtree.evolution.birth_death as cbd
     from torchtree.core.parameter import Parameter
     from specs import treemodels
-    t64 = lambda v: torch.tensor(v, dtype=torch.float64)
+    t64 = lambda v: torch.tensor(v, dtype=dtype)
     names = ["A", "B", "C", "D"]
     tree = ((0, 1), (2, 3))
     tips = [0.0, 0.5, 0.0, 1.0]
@@ -1389,6 +1389,27 @@ def ob_model_history(kind, depth):
         return {"backend": "heap", "cases": n, "statement": "%d histories of parameter / height updates, reads and evaluations: the %s model returns the density of the current values" % (n, kind)}
     return Ob("C09.model.history[%s,depth<=%d]" % (kind, depth), "B", body,
               clause="BDSKModel() / BirthDeathModel() return the density of the CURRENT rates, sampling parameters, origin and node heights after every history", funcs=FUNCS)
+
+
+def ob_model_dtype(kind):
+    def body():
+        from specs import histories
+        bad, n, notes = histories.dtype_consistency(lambda dt: _model_world(kind, dt), (None, (1,) * 6, (2,) * 6))
+        if bad is not None:
+            raise Refuted("%s model: float32 inputs at %s give %s (%s), float64 inputs give %s" % ((kind,) + bad), witness={"kind": kind},
+                          replay={"kind": "custom", "contract": "C09", "func": "replay_model_dtype", "args": {"kind": kind}}, confirmed=True)
+        if n == 0:
+            return {"backend": "heap", "cases": 0, "trivial": True, "raised": "; ".join(sorted(set(notes))), "statement": "%s: float32 inputs raise (loud): nothing to compare" % kind}
+        return {"backend": "heap", "cases": n, "raised": "; ".join(sorted(set(notes))), "statement": "%s: float32 evaluation equals the float64 one to 1e-4 (%d points)" % (kind, n)}
+    return Ob("C09.model.dtype[%s]" % kind, "B", body, clause="the density does not depend on the floating-point type the inputs are written in (to single precision)", funcs=FUNCS)
+
+
+def replay_model_dtype(args):
+    try:
+        ob_model_dtype(args["kind"]).fn()
+    except Refuted as e:
+        return False, e.detail
+    return True, "held"
 
 
 def replay_model_history(args):
@@ -1519,6 +1540,7 @@ def obligations(tier, seed):
     for kind_ in ("bdsk", "birth_death"):
         obs.append(ob_model_history(kind_, 2))
         obs.append(ob_model_history(kind_, 3))
+        obs.append(ob_model_dtype(kind_))
     for name in ME_CONFIGS:
         obs.append(Ob("C09.master_equations[%s]" % name, "B", ob_master(name, trials, seed),
                       clause="matches numerical integration of the birth-death master equations along the tree", funcs=FUNCS))
